@@ -170,6 +170,10 @@ pub fn run_batch(prop: &dyn Property, tier: &str, seed: u64) -> BatchOutcome {
         total,
         workers
     ));
+    if let Err(err) = crate::exec::hash_seam_selfcheck() {
+        out_line(&format!("HARNESS-ERROR: {}", err));
+        return BatchOutcome { exit_code: 2 };
+    }
     let next = AtomicUsize::new(0);
     let results: Mutex<Vec<Option<Result<RunReport, String>>>> =
         Mutex::new((0..total).map(|_| None).collect());
@@ -472,6 +476,57 @@ pub fn replay_file(props: &[&dyn Property], path: &Path) -> i32 {
                     1
                 }
             }
+        }
+    }
+}
+
+/// Determinism self-test support: run the batch without shrinking and write one line per
+/// run (index, I/O signature, digest of scenario + violations + stats) to `path`.
+pub fn digest_batch(prop: &dyn Property, tier: &str, seed: u64, total: usize, workers: usize, path: &Path) -> i32 {
+    let next = AtomicUsize::new(0);
+    let lines: Mutex<Vec<Option<String>>> = Mutex::new((0..total).map(|_| None).collect());
+    std::thread::scope(|scope| {
+        for _ in 0..workers {
+            scope.spawn(|| loop {
+                let index = next.fetch_add(1, Ordering::Relaxed);
+                if index >= total {
+                    break;
+                }
+                let line = match prop.run(seed, index, tier) {
+                    Ok(report) => {
+                        let scenario = serde_json::to_string(&report.scenario).unwrap_or_default();
+                        let mut text = String::new();
+                        for v in &report.violations {
+                            text.push_str(&format!("{:?}|{}\n", v.sig, v.message));
+                        }
+                        let counters = serde_json::to_string(&report.counters).unwrap_or_default();
+                        format!(
+                            "{} {:016x} {:016x} {:016x} {:016x} {}",
+                            index,
+                            report.io_signature,
+                            crate::rng::hash_str(1, &scenario),
+                            crate::rng::hash_str(2, &text),
+                            crate::rng::hash_str(3, &format!("{}{}", report.stats, counters)),
+                            report.violations.len()
+                        )
+                    }
+                    Err(err) => format!("{} ERROR {}", index, err),
+                };
+                lines.lock().unwrap()[index] = Some(line);
+            });
+        }
+    });
+    let lines: Vec<String> = lines
+        .into_inner()
+        .unwrap()
+        .into_iter()
+        .map(|l| l.unwrap_or_default())
+        .collect();
+    match fs::write(path, lines.join("\n") + "\n") {
+        Ok(()) => 0,
+        Err(err) => {
+            out_line(&format!("HARNESS-ERROR: cannot write {}: {}", path.display(), err));
+            2
         }
     }
 }
